@@ -74,6 +74,11 @@ type Script struct {
 	// resumed eventually). 0 = never.
 	StallWriteAt   int
 	StallWriteKeep int
+	// IdleAt models a client that pauses before sending what follows the n-th would-block read
+	// (1-based) for longer than any read deadline. Virtual time: when a read deadline is armed at
+	// that read it returns a timeout error at once (one time); when none is armed the read just
+	// goes on waiting and the data arrives. 0 = never.
+	IdleAt int
 }
 
 type Conn struct {
@@ -89,6 +94,10 @@ type Conn struct {
 	failKeep  int
 	stallAt   int
 	stallKeep int
+	idleAt    int
+	idled     bool
+	rdl       time.Time // read deadline armed by the server (zero = none)
+	rdlArmed  int
 	wdl       time.Time // write deadline armed by the server (zero = none)
 	wdlArmed  int       // number of non-zero write deadlines set
 
@@ -106,10 +115,11 @@ type Conn struct {
 	done           bool // driver marks that the serve call returned
 	readAfterClose int
 	resetSeen      bool
+	readTimeouts   int
 }
 
 func New(s Script) *Conn {
-	c := &Conn{end: s.End, failAt: s.FailWriteAt, failKeep: s.FailWriteKeep, stallAt: s.StallWriteAt, stallKeep: s.StallWriteKeep, readHash: 1469598103934665603}
+	c := &Conn{end: s.End, failAt: s.FailWriteAt, failKeep: s.FailWriteKeep, stallAt: s.StallWriteAt, stallKeep: s.StallWriteKeep, idleAt: s.IdleAt, readHash: 1469598103934665603}
 	for _, ch := range s.Chunks {
 		if len(ch) > 0 {
 			c.chunks = append(c.chunks, ch)
@@ -144,6 +154,11 @@ func (c *Conn) Read(p []byte) (int, error) {
 		// nothing delivered: would-block read
 		if !c.waiting {
 			c.wbs = append(c.wbs, WouldBlock{Seq: NextSeq(), Delivered: c.delivered, OutLen: len(c.out), At: time.Now()})
+			if c.idleAt > 0 && len(c.wbs) == c.idleAt && !c.idled && !c.rdl.IsZero() {
+				c.idled = true
+				c.readTimeouts++
+				return 0, &net.OpError{Op: "read", Net: "tcp", Err: os.ErrDeadlineExceeded}
+			}
 		}
 		if len(c.chunks) > 0 {
 			c.cur = c.chunks[0]
@@ -227,10 +242,21 @@ type addr string
 func (a addr) Network() string { return "sconn" }
 func (a addr) String() string  { return string(a) }
 
-func (c *Conn) LocalAddr() net.Addr               { return addr("sconn-local") }
-func (c *Conn) RemoteAddr() net.Addr              { return addr("sconn-remote") }
-func (c *Conn) SetReadDeadline(t time.Time) error { return nil }
-func (c *Conn) SetDeadline(t time.Time) error     { return c.SetWriteDeadline(t) }
+func (c *Conn) LocalAddr() net.Addr  { return addr("sconn-local") }
+func (c *Conn) RemoteAddr() net.Addr { return addr("sconn-remote") }
+func (c *Conn) SetReadDeadline(t time.Time) error {
+	c.mu.Lock()
+	defer c.mu.Unlock()
+	c.rdl = t
+	if !t.IsZero() {
+		c.rdlArmed++
+	}
+	return nil
+}
+func (c *Conn) SetDeadline(t time.Time) error {
+	c.SetReadDeadline(t)
+	return c.SetWriteDeadline(t)
+}
 func (c *Conn) SetWriteDeadline(t time.Time) error {
 	c.mu.Lock()
 	defer c.mu.Unlock()
@@ -319,6 +345,8 @@ type Snapshot struct {
 	Pending        int // bytes scripted but not delivered
 	ReadAfterClose int
 	WriteDeadlines int // non-zero write deadlines the server armed
+	ReadDeadlines  int // non-zero read deadlines the server armed
+	ReadTimeouts   int // reads cut short by the idle-client script
 }
 
 func (c *Conn) Snapshot() Snapshot {
@@ -334,7 +362,7 @@ func (c *Conn) Snapshot() Snapshot {
 		WouldBlocks: append([]WouldBlock{}, c.wbs...),
 		Delivered:   c.delivered, Reads: c.nReads, ReadHash: c.readHash,
 		Closed: c.closed, CloseCount: c.closeCnt, CloseSeq: c.closeSeq, Waiting: c.waiting, Pending: pend,
-		ReadAfterClose: c.readAfterClose, WriteDeadlines: c.wdlArmed,
+		ReadAfterClose: c.readAfterClose, WriteDeadlines: c.wdlArmed, ReadDeadlines: c.rdlArmed, ReadTimeouts: c.readTimeouts,
 	}
 }
 
